@@ -95,6 +95,27 @@ let parse_node (toks : string list) : node * string list =
     | _ -> failwith "node" in
   node toks
 
+(* ---- s-expression tokens: ( ) i<num> s<hex> y<hex> f<hex> d<hex> *)
+let print_tokens (ts : token list) : string =
+  let b = Buffer.create 1024 in
+  List.iter (fun t ->
+      if Buffer.length b > 0 then Buffer.add_char b ' ';
+      match t with
+      | TL -> Buffer.add_char b '(' | TR -> Buffer.add_char b ')'
+      | TA (AInt x) -> Buffer.add_char b 'i'; Buffer.add_string b (hex_of_z x)
+      | TA (AStr s) -> Buffer.add_char b 's'; Buffer.add_string b (hex_of_bytes s)
+      | TA (ASym s) -> Buffer.add_char b 'y'; Buffer.add_string b (hex_of_bytes s)
+      | TA (ASFlo s) -> Buffer.add_char b 'f'; Buffer.add_string b (hex_of_bytes s)
+      | TA (ADFlo s) -> Buffer.add_char b 'd'; Buffer.add_string b (hex_of_bytes s)) ts;
+  Buffer.contents b
+let parse_tokens (toks : string list) : token list =
+  List.map (fun t ->
+      if t = "(" then TL else if t = ")" then TR else
+        let body = String.sub t 1 (String.length t - 1) in
+        match t.[0] with
+        | 'i' -> TA (AInt (z_of_hex body)) | 's' -> TA (AStr (bytes_arg body)) | 'y' -> TA (ASym (bytes_arg body))
+        | 'f' -> TA (ASFlo (bytes_arg body)) | 'd' -> TA (ADFlo (bytes_arg body)) | _ -> failwith "token") toks
+
 let bit b = if b then "1" else "0"
 let refusal_name = function
   | ShortHeader -> "ShortHeader" | BadMagic -> "BadMagic" | BadVersion -> "BadVersion"
@@ -132,6 +153,39 @@ let handle (line : string) : string =
     let (b2, _) = enc fP st c in
     Printf.sprintf "%s %s %s | %s | %s | %s %s" (bit w) (hex_of_bytes b) (hex_of_z st') d (node_to_string c)
       (bit (canon fP c = c)) (bit (b2 = b))
+  | "wr" :: toks ->
+    (* tree -> text tokens; read them back; re-save *)
+    let (n, _) = parse_node toks in
+    let ts = wr fP tP ctx0 n in
+    let back = (match rd fP tP ts with
+        | Some (m, []) -> Printf.sprintf "%s %s" (bit (m = tcanon fP n)) (bit (wr fP tP ctx0 m = ts))
+        | Some (_, _ :: _) -> "REST" | None -> "NONE") in
+    Printf.sprintf "%s %s | %s" (bit (wf_text fP tP n)) back (print_tokens ts)
+  | "rdwr" :: toks ->
+    (* text tokens -> tree -> text tokens *)
+    (match rd fP tP (parse_tokens toks) with
+     | None -> "NONE"
+     | Some (n, rest) ->
+       Printf.sprintf "%s %s | %s | %s" (bit (rest = [])) (bit (wf_text fP tP n)) (node_to_string n)
+         (print_tokens (wr fP tP ctx0 n)))
+  | ["ar"; hex] ->
+    (* members of an ar archive: name:position ... | diagnostics *)
+    (match read_ar (bytes_arg hex) with
+     | NotArch -> "NOTARCH"
+     | Members (ms, dg) ->
+       Printf.sprintf "MEMBERS %s | %s"
+         (String.concat " " (List.map (fun (n, p) -> hex_of_bytes n ^ ":" ^ hex_of_z p) ms))
+         (String.concat " " (List.map (function ArTruncated -> "T" | ArBadNumber -> "N") dg)))
+  | ["tparams"] -> bit (text_params_ok fP tP)
+  | ["lex"; t] ->
+    (* spelling of one integer / string atom, and its reading back *)
+    let body = String.sub t 1 (String.length t - 1) in
+    (match t.[0] with
+     | 'i' -> let z = z_of_hex body in let s = pr_int z in
+       Printf.sprintf "%s %s" (hex_of_bytes s) (match rd_int s with Some v -> bit (v = z) | None -> "N")
+     | 's' -> let x = bytes_arg body in let s = pr_str x in
+       Printf.sprintf "%s %s" (hex_of_bytes s) (match rd_str s with Some (v, []) -> bit (v = x) | _ -> "N")
+     | _ -> "ERR")
   | ["sred"; v] ->
     let t = sint_reduce fP (z_of_hex v) in
     Printf.sprintf "%s | %s" (match eval_sint fP t with None -> "NONE" | Some x -> hex_of_z x) (node_to_string t)
